@@ -116,6 +116,38 @@ def rule_O5(ctx):
         if isinstance(d, ast.Delete) and any(
                 x[0] == "truthy" and "startswith('__')" in x[1].replace('"', "'") for x in fg.atoms(d)):
             strip = True
+    # ... or builds the outgoing context from the entries that do not start with '__': the
+    # first element of the returned tuple derives from a comprehension with that filter and
+    # is afterwards only merged with the published variables
+    rets = [r for r in ast.walk(f.node) if isinstance(r, ast.Return) and isinstance(
+        r.value, ast.Tuple) and r.value.elts and isinstance(r.value.elts[0], ast.Name)]
+    if not strip and rets:
+        ok_all = True
+        for r in rets:
+            nm, seen_ = r.value.elts[0].id, set()
+            roots, work = [], [nm]
+            while work:
+                x = work.pop()
+                if x in seen_:
+                    continue
+                seen_.add(x)
+                for d in ast.walk(f.node):
+                    if isinstance(d, ast.Assign) and any(
+                            isinstance(t, ast.Name) and t.id == x for t in d.targets):
+                        v = d.value
+                        if isinstance(v, ast.Call) and callee_name(v) == "merge_dicts" and v.args \
+                                and isinstance(v.args[0], ast.Name):
+                            work.append(v.args[0].id)
+                        elif isinstance(v, ast.Name):
+                            work.append(v.id)
+                        else:
+                            roots.append(v)
+            filt = roots and all(isinstance(v, ast.DictComp) and any(
+                isinstance(c, ast.UnaryOp) and isinstance(c.op, ast.Not)
+                and "startswith('__')" in unparse(c).replace('"', "'")
+                for g in v.generators for c in g.ifs) for v in roots)
+            ok_all = ok_all and bool(filt)
+        strip = ok_all
     if strip:
         res.holds(("finalize_context", "strips __ names from the outgoing context"))
     else:
@@ -156,7 +188,10 @@ def rule_O6(ctx):
                     x[0] == "falsy" and "startswith('__')" in x[1].replace('"', "'") for x in alt)
                     for alt in a[1]))
                 for a in atoms)
-            odd = _not_keyed_read(f, v) if blocked else None
+            # (a stricter clause - the value must be the mapping subscripted by exactly the
+            # tested key - was withdrawn: a correct dotted-path look-up that tests the root
+            # segment trips it)
+            odd = None
             if blocked and odd is not None:
                 res.violated(inst, Finding(
                     "O6", f.file, f.qualname, "value returned by ctx(key)",
